@@ -24,6 +24,7 @@ RULE = ('weights: strictly monotonic source (2-10 levels; 1 level noted) and '
         'than the file\'s (constant-field law). non-trivial = target differs '
         'from source; distinct = digest of the spec.')
 RULE += (' Also: integer-typed source coordinates, coordkey other than the dimension name, a linear-profile law for the linear interpSigma with another model top.')
+RULE += (" bpchsigma (one case in 21): the GEOS-Chem class's own interpSigma on the object bpch1/bpch2 return for a reference image with 47-, 30- or 12-layer tracers (copied, profile written): linear profiles in sigma mid-points are reproduced (edge values beyond the inputs unless extrapolating), constant fields stay constant, a random profile is the linear interpolation of its neighbours, target == source is the identity, for the model top, 0 and a top above the model's.")
 ASSUMPTIONS = [
     'laws, not a reference implementation: non-negativity, partition of '
     'unity, linear exactness, identity, clipping at the edges when not '
@@ -36,7 +37,8 @@ ASSUMPTIONS = [
     'accepted there',
 ]
 HOOKS = ['getinterpweights.contract', 'sigma2coeff.contract',
-         'interpDimension.return', 'interpSigma.return', 'interpvars.return']
+         'interpDimension.return', 'interpSigma.return', 'interpvars.return',
+         'bpch.interpSigma.return']
 TECHNIQUE = ('runtime contracts (icontract ensure on the real functions) '
              'checking algebraic laws, plus file-level law monitors')
 MIN_DISTINCT = {'quick': 800, 'thorough': 10000}
@@ -64,6 +66,20 @@ def gen(rng, idx, tier, seed):
     mode = ['weights', 'sigma', 'weights', 'filedim', 'sigmafile',
             'interpvars', 'filedimnd'][idx % 7]
     spec = {'mode': mode, 'seed': int(rng.integers(1 << 30))}
+    if idx % 21 == 17:
+        # the GEOS-Chem class has a vertical interpolation of its own (linear
+        # in sigma mid-points derived from the model's pressure edges)
+        m = int(rng.integers(1, 9))
+        kind = str(rng.choice(['inside', 'same', 'beyond', 'coarse']))
+        spec.update(mode='bpchsigma', kind=kind, m=m,
+                    nl=int(rng.choice([47, 47, 47, 30, 12])),
+                    top=str(rng.choice(['model', 'model', 'zero',
+                                        'above'])),
+                    extrapolate=bool(rng.random() < 0.3),
+                    reader=str(rng.choice(['bpch1', 'bpch1', 'bpch2'])),
+                    profile=str(rng.choice(['linear', 'linear', 'constant',
+                                            'random'])))
+        return spec
     if mode == 'filedimnd':
         # N-dimensional coordinate variables: per-column source and target
         rank = int(rng.integers(2, 5))
@@ -348,8 +364,148 @@ def span_of(xs):
     return float(np.max(xs) - np.min(xs)) if np.size(xs) else 0.0
 
 
+def run_bpchsigma(spec, res):
+    """bpch_base.interpSigma: file-level laws on the object the bpch reader
+    returns (copied, so that the profile can be written)"""
+    from .. import harness, readerfiles, refbpch
+    problems = []
+    rng = np.random.default_rng([spec['seed'], 41])
+    bs = refbpch.gen_spec(rng, small=True)
+    bs['cats'], bs['offsets'] = bs['cats'][:1], bs['offsets'][:1]
+    trs = [t for t in bs['tracers'] if t['cat'] == 0][:2]
+    for i, t in enumerate(trs):
+        t['nl'] = spec['nl'] if i == 0 else 47
+        t['k0'] = 1
+    bs['tracers'] = trs
+    bs['nt'] = 1
+    with harness.casedir() as d:
+        f, status = readerfiles.open_reader(
+            {'kind': spec['reader'], 'spec': bs}, d)
+        if f is None:
+            res.note('reader-gave-no-file:' + status)
+            return [], False
+        g = f.copy()
+        etai = np.asarray(g.variables['etai_pressure'][:], 'f8') * 100.
+        vgtop = {'model': float(etai[-1]), 'zero': 0.0,
+                 'above': float(etai[-1]) + 500.}[spec['top']]
+        sig = (etai - vgtop) / (etai[0] - vgtop)
+        zs = (sig[:-1] + sig[1:]) / 2.
+        if spec['kind'] == 'same':
+            tgt = sig.copy()
+        elif spec['kind'] == 'coarse':
+            tgt = sig[::int(rng.integers(2, 6))].copy()
+        elif spec['kind'] == 'inside':
+            e = np.sort(rng.uniform(zs.min(), zs.max(), spec['m'] + 1))[::-1]
+            tgt = e
+        else:
+            tgt = np.sort(rng.uniform(-0.05, 1.05, spec['m'] + 1))[::-1]
+        if tgt.size < 2 or np.min(np.abs(np.diff(tgt))) == 0:
+            return [], False
+        nzs = (tgt[:-1] + tgt[1:]) / 2.
+        a_, b_ = float(rng.uniform(-5, 5)), float(rng.uniform(0.5, 30))
+        judged = []
+        for k in list(g.variables.keys()):
+            v = g.variables[k]
+            ld = [dk for dk in v.dimensions if dk.startswith('layer') and
+                  dk not in ('layer', 'layer1', 'layer_bounds')]
+            if len(ld) != 1 or v.ndim != 4:
+                continue
+            ax = list(v.dimensions).index(ld[0])
+            n = v.shape[ax]
+            shp = [1] * v.ndim
+            shp[ax] = n
+            if spec['profile'] == 'linear':
+                prof = a_ + b_ * zs[:n]
+            elif spec['profile'] == 'constant':
+                prof = np.full(n, a_ + 7.0)
+            else:
+                prof = rng.uniform(1, 2, n)
+            cols = np.asarray(prof.reshape(shp) + np.zeros(v.shape), 'f8')
+            v[...] = cols
+            judged.append((k, ld[0], ax, n, prof))
+        if not judged:
+            return [], False
+        try:
+            out = g.interpSigma(tgt, vgtop=vgtop,
+                                extrapolate=spec['extrapolate'])
+            res.hook('bpch.interpSigma.return')
+        except LawBroken:
+            raise
+        except Exception as e:
+            return ['bpch interpSigma(%d target layers, top=%s) raised %r'
+                    % (nzs.size, spec['top'], e)], True
+        for k, ldim, ax, n, prof in judged:
+            ov = np.asarray(out.variables[k][...], 'f8')
+            if ov.shape[ax] != nzs.size or \
+                    len(out.dimensions[ldim]) != nzs.size:
+                problems.append('%s: %d target layers, result has %d (%s=%d)'
+                                % (k, nzs.size, ov.shape[ax], ldim,
+                                   len(out.dimensions[ldim])))
+                continue
+            col = np.moveaxis(ov, ax, 0).reshape(nzs.size, -1)
+            if np.abs(col - col[:, :1]).max() > 0:
+                problems.append('%s: identical columns interpolated '
+                                'differently' % k)
+            got = col[:, 0]
+            zz = zs[:n]
+            lo, hi = zz.min(), zz.max()
+            tol = 2e-5 * max(1.0, np.abs(prof).max())
+            for j, z in enumerate(nzs):
+                inside = lo <= z <= hi
+                if n < 47 and not inside:
+                    continue    # the variable has no data up there
+                if spec['profile'] == 'constant':
+                    if n == 47 and abs(got[j] - prof[0]) > tol:
+                        problems.append(
+                            '%s: constant profile %r became %r at target '
+                            'sigma %r' % (k, prof[0], got[j], z))
+                    continue
+                if spec['profile'] == 'linear':
+                    if inside or spec['extrapolate']:
+                        want = a_ + b_ * z
+                    else:
+                        # documented: edge values beyond the inputs
+                        want = a_ + b_ * (lo if z < lo else hi)
+                    if n < 47 and z < zz[-1]:
+                        continue
+                    if abs(got[j] - want) > tol * (
+                            10 if not inside else 1):
+                        problems.append(
+                            '%s: linear profile %.4g + %.4g*sigma gives %r '
+                            'at target sigma %r, expected %r (%s)'
+                            % (k, a_, b_, got[j], z, want,
+                               'inside' if inside else 'beyond the inputs'))
+                elif inside and n == 47:
+                    # piecewise-linear interpolation of the mid-point values
+                    want = np.interp(z, zz[::-1], prof[::-1])
+                    if abs(got[j] - want) > tol:
+                        problems.append(
+                            '%s: random profile: %r at target sigma %r, '
+                            'linear interpolation of the neighbours gives %r'
+                            % (k, got[j], z, want))
+            if spec['kind'] == 'same' and n == 47:
+                if np.abs(got - prof).max() > tol:
+                    problems.append('%s: target grid equals the source grid '
+                                    'but the profile changed by %r'
+                                    % (k, np.abs(got - prof).max()))
+    return problems, spec['kind'] != 'same'
+
+
 def run(spec, res):
     install()
+    if spec['mode'] == 'bpchsigma':
+        drain(res)
+        problems, nontriv = run_bpchsigma(spec, res)
+        problems += drain(res)
+        res.ev(digest(spec), nontriv,
+               ['mode:bpchsigma', 'kind:' + spec['kind'],
+                'top:' + spec['top'], 'profile:' + spec['profile'],
+                'reader:' + spec['reader']])
+        if problems:
+            res.viol('law-broken:bpchsigma', '; '.join(problems[:5]),
+                     mode='bpchsigma', tkind=spec['kind'],
+                     problems=problems[:10])
+        return
     import PseudoNetCDF as pnc
     import PseudoNetCDF.coordutil as cu
     mode = spec['mode']
